@@ -18,7 +18,12 @@ import MayVerif.Model.Sync.WaitGroupReplay
 import MayVerif.Model.Runtime.CancelReplay
 import MayVerif.Model.Time.DurReplay
 import MayVerif.Model.Time.TimeoutListReplay
+import MayVerif.Model.Time.TimerThreadReplay
 import MayVerif.Model.IoReplay
+import MayVerif.Model.Chan.MpmcReplay
+import MayVerif.Model.Chan.SpscReplay
+import MayVerif.Model.Queue.TimerListReplay
+import MayVerif.Model.Runtime.ParkReplay
 open MayVerif
 
 def machines : List (String × Machine) := [
@@ -42,9 +47,16 @@ def machines : List (String × Machine) := [
   ("cancel_cvlock", MayVerif.Cancel.oracleOnly),
   ("time_dur", MayVerif.Time.machine),
   ("timeout_list", MayVerif.Time.TL.machine),
+  ("timer_thread", MayVerif.Time.TT.machine),
   ("io_stream", MayVerif.Io.machine),
   ("io_timeout", MayVerif.Io.machine),
   ("io_timeout_race", MayVerif.Io.machine),
   ("io_cancel", MayVerif.Io.machine),
-  ("io_cancel_shared", MayVerif.Io.machine)
+  ("io_cancel_shared", MayVerif.Io.machine),
+  ("ch_mpmc", MayVerif.Chan.Mpmc.machine),
+  ("ch_spsc", MayVerif.Chan.Spsc.machine),
+  ("mq_tl", MayVerif.TimerList.machine),
+  ("park", MayVerif.Park.machine),
+  ("blocker", MayVerif.Park.machine),
+  ("blocker_thr", MayVerif.Park.machine)
 ]
